@@ -287,6 +287,41 @@ mutual
       simp only [emit]
       refine Consistent.wrap _ _ _ (Consistent.nil _ _) ?_
       simpa [List.append_assoc] using (claim0 (s := start))
+    | .transition style len, start => by
+      simp only [emit]
+      exact Consistent.wrap _ _ _ (Consistent.nil _ _) claim0
+    | .footnote name kids, start => by
+      simp only [emit]
+      have hk := emitSeq_consistent ℓ kids SeqMode.blocks start
+      have h2 := Consistent.prefix ℓ.padBlank (".. [#" ++ name ++ "] ") (spaces ℓ.bodyIndent) hk
+      by_cases he : (prefixLines ℓ.padBlank (".. [#" ++ name ++ "] ") (spaces ℓ.bodyIndent)
+          (emitSeq ℓ SeqMode.blocks start kids).lines).isEmpty = true
+      · simp only [he, if_true]
+        have hnil : prefixLines ℓ.padBlank (".. [#" ++ name ++ "] ") (spaces ℓ.bodyIndent)
+            (emitSeq ℓ SeqMode.blocks start kids).lines = [] := List.isEmpty_iff.mp he
+        rw [hnil] at h2
+        refine Consistent.wrap _ _ _ ?_ ?_
+        · intro n hn ln txt hc
+          have := h2 n hn ln txt hc
+          simp at this
+        · simpa [headLine] using (claim0 (s := start) (l0 := ".. [#" ++ name ++ "]") (rest := []))
+      · simp only [he, Bool.false_eq_true, if_false]
+        refine Consistent.wrap _ _ _ h2 ?_
+        intro ln txt h
+        simp only [Option.some.injEq, Prod.mk.injEq] at h
+        obtain ⟨rfl, rfl⟩ := h
+        refine ⟨Nat.le_refl _, ?_⟩
+        rw [Nat.sub_self]
+        exact headLine_spec _ (by intro hn; rw [hn] at he; simp at he)
+    | .substdef name xs, start => by
+      simp only [emit]
+      exact Consistent.wrap _ _ _ (inlNodes_consistent _ _ _) claim0
+    | .blocksub name, start => by
+      simp only [emit]
+      exact Consistent.wrap _ _ _ (Consistent.nil _ _) claim0
+    | .namedtarget name uri, start => by
+      simp only [emit]
+      exact Consistent.wrap _ _ _ (Consistent.nil _ _) claim0
   theorem emitSeq_consistent (ℓ : Layout) : ∀ (bs : List Blk) (mode : SeqMode) (start : Nat),
       Consistent start (emitSeq ℓ mode start bs).lines (emitSeq ℓ mode start bs).nodes
     | [], mode, start => by
@@ -405,6 +440,9 @@ theorem inlTok_text (x : Inl) (h : fmtOk x) : toksText [inlTok x] = inlText x :=
   | strong s => simp [inlTok, toksText, inlText, nodesText, nodeText, nodeText_textNode]
   | literal s => simp [inlTok, toksText, inlText, nodesText, nodeText, nodeText_textNode]
   | extref l u => simp [inlTok, toksText, inlText, nodesText, nodeText, nodeText_textNode, leaf]
+  | footref nm => simp [inlTok, toksText, inlText, nodesText, nodeText, leaf]
+  | subref nm => simp [inlTok, toksText, inlText, nodesText, nodeText, leaf]
+  | namedref nm => simp [inlTok, toksText, inlText, nodesText, nodeText, nodeText_textNode]
   | role m l t sp =>
     have hf : sp.fmt ≠ some "text" := h
     simp only [inlTok, toksText, String.append_empty, roleNodes]
